@@ -53,10 +53,103 @@ def pass_body(F):
     return mir.inline_calls(F, F.body(p), want=same_crate_policy("tx3_resolver"), depth=3)
 
 
+_LB = {}
+
+
 def loop_body(F):
-    """resolve_tx's CFG with the crate's helpers (not the pass function) inlined"""
-    l, p = resolver_roles(F)
-    return mir.inline_calls(F, F.body(l), want=same_crate_policy("tx3_resolver", exclude=(p,)), depth=2)
+    """resolve_tx's CFG with the crate's helpers (not the pass function) inlined; a state struct of the crate that carries
+    the last evaluation in a field (`state.best: Option<CompiledTx>`, the pass function a method taking `&state`) is split
+    into one variable per field, which gives the loop the shape the rules below describe"""
+    if id(F) not in _LB:
+        l, p = resolver_roles(F)
+        _LB[id(F)] = (F, _split_state(F, mir.inline_calls(F, F.body(l), want=same_crate_policy("tx3_resolver", exclude=(p,)), depth=2)))
+    return _LB[id(F)][1]
+
+
+def _split_state(F, f):
+    """scalar replacement of the loop's state struct.  Applies only when every use of the struct is a field access, a whole
+    move between variables of its type (the constructor's result moved into the variable), the aggregate that builds it, a drop,
+    or `&state` handed to a call; otherwise the body is returned as it is."""
+    import copy
+    T = adt = None
+    for ty in f["locals"]:
+        base = ty.split("<")[0]
+        a = F.adts.get(base)
+        if a and a.get("crate") == "tx3_resolver" and not a.get("is_enum") and len(a["variants"]) == 1 \
+                and sum(1 for fd in a["variants"][0]["fields"] if fd["ty"] == OPT_CT) == 1:
+            T, adt = base, a
+            break
+    if T is None:
+        return f
+    S = {i for i, ty in enumerate(f["locals"]) if ty.split("<")[0] == T}
+    R = {i for i, ty in enumerate(f["locals"]) if ty.startswith("&") and ty.lstrip("&").replace("mut ", "").split("<")[0] == T}
+    g = copy.deepcopy(f)
+    N = {}
+    best = None
+    for fd in adt["variants"][0]["fields"]:
+        g["locals"].append(fd["ty"])
+        N[fd["name"]] = len(g["locals"]) - 1
+        if fd["ty"] == OPT_CT:
+            best = fd["name"]
+    bad = []
+
+    def rw(pl):
+        if pl is None:
+            return
+        if pl["l"] in S:
+            if pl["p"] and pl["p"][0][0] == "f" and str(pl["p"][0][1]) in N:
+                nl = N[str(pl["p"][0][1])]
+                pl["p"] = pl["p"][1:]
+                pl["l"] = nl
+            else:
+                bad.append("whole use")
+        elif pl["l"] in R and pl["p"]:
+            bad.append("access through a reference")
+
+    def rw_op(o):
+        if isinstance(o, dict):
+            rw(mir.op_place(o))
+    for b in g["blocks"]:
+        if b["cleanup"]:
+            continue
+        out = []
+        for st in b["s"]:
+            rv, lhs = st["rv"], st["lhs"]
+            if lhs["l"] in S and not lhs["p"]:
+                if rv["k"] == "agg" and rv.get("adt") == T:
+                    for fld, o in zip(rv["fields"], rv["ops"]):
+                        out.append({"lhs": {"l": N[fld], "p": []}, "rv": {"k": "use", "op": o}, "line": st["line"], "exp": st.get("exp", "")})
+                    continue
+                if rv["k"] == "use" and (mir.op_place(rv["op"]) or {}).get("l") in S and not mir.op_place(rv["op"])["p"]:
+                    continue     # the constructor's result moved into the variable: one object
+                bad.append("whole definition")
+                continue
+            if rv["k"] == "ref" and rv["pl"]["l"] in S and not rv["pl"]["p"] and lhs["l"] in R and not lhs["p"]:
+                # `&state` for the pass function: stands for the previous evaluation it reads from it
+                rv["pl"] = {"l": N[best], "p": []}
+                g["locals"][lhs["l"]] = OPT_REF_CT
+                out.append(st)
+                continue
+            rw(lhs)
+            if rv["k"] in ("ref", "rawptr", "discr"):
+                rw(rv["pl"])
+            else:
+                for o in mir.all_operands_of_rv(rv):
+                    rw_op(o)
+            out.append(st)
+        b["s"] = out
+        t = b["t"]
+        if t["k"] == "call":
+            for o in t["args"]:
+                rw_op(o)
+            rw(t.get("dest"))
+        elif t["k"] == "switch":
+            rw_op(t["discr"])
+        elif t["k"] == "assert":
+            rw_op(t["cond"])
+    if bad:
+        return f
+    return g
 
 
 def typed_locals(fn, ty, user_only=False):
@@ -447,7 +540,9 @@ def eval_pass_first_round_is_some(F):
         if s["lhs"]["l"] == 0 and not s["lhs"]["p"] and rv["k"] == "agg" and rv.get("variant") == "Ok":
             for o in mir.provenance(f, du, rv["ops"][0]):
                 if o.kind == "agg" and o.rv.get("adt", "").endswith("::Option"):
-                    (none_returns if o.rv["variant"] == "None" else some_returns).append(bi)
+                    # (judged where the `None` / `Some(..)` is built: a helper `keep_if_changed(prev, eval)` hands it to one
+                    # shared `Ok(..)` behind the join)
+                    (none_returns if o.rv["variant"] == "None" else some_returns).append(o.bb if o.bb is not None else bi)
                 elif o.kind == "call" and o.callee in ("std::bool::<impl bool>::then_some", "core::bool::<impl bool>::then_some") and o.term["args"]:
                     # `Ok(changed.then_some(eval))`: None exactly when the flag is false.  The flag may be false only as the
                     # result of comparing the new evaluation with the supplied previous one (on the Some edge of the match
